@@ -4,7 +4,7 @@
    dictionaries of all the streams of a document and the key-preserving part of _use_references). *)
 From Coq Require Import ZArith List Bool.
 Require Import WV.model.C16Stream WV.model.C16Res WV.model.C16Closure.
-Require Import WV.proofs.C16_balance WV.proofs.C16_skip WV.proofs.C16_names WV.proofs.C16_res WV.proofs.C16_closure.
+Require Import WV.proofs.C16_balance WV.proofs.C16_skip WV.proofs.C16_names WV.proofs.C16_res WV.proofs.C16_closure WV.proofs.C16_rollback.
 Import ListNotations.
 Open Scope Z_scope.
 
@@ -44,16 +44,17 @@ Theorem C16_skip_is_sound (mark : bool) (d : egsd) (ops : list op) (s' : st) :
 Proof. exact (skip_is_sound mark d ops s'). Qed.
 Print Assumptions C16_skip_is_sound.
 
-(* ExtGState names, for ALL call sequences: each `/name gs` in the stream is a key of the stream's resource
-   dictionary, bound to what was stored when it was emitted (s{len(dict)} is always fresh, nothing is re-bound) *)
+(* ExtGState names, for ALL call sequences without rollback (well bracketed or not): each `/name gs` in the stream
+   is a key of the stream's resource dictionary, bound to what was stored when it was emitted (s{len(dict)} is always
+   fresh, nothing is re-bound).  With failed drawings: C16_gs_names_defined_with_failed_drawings below. *)
 Theorem C16_gs_names_defined (mark : bool) (d : egsd) (ops : list op) (s' : st) :
-  egs_wf d = true -> run ops (fresh mark d) = Some s' ->
+  forallb no_rb ops = true -> egs_wf d = true -> run ops (fresh mark d) = Some s' ->
   forall k v, In (Tgs k v) (toks s') -> lookup k (egs s') = Some v.
 Proof. exact (gs_names_defined mark d ops s'). Qed.
 Print Assumptions C16_gs_names_defined.
 
 Theorem C16_gs_names_stable (mark : bool) (d : egsd) (ops1 ops2 : list op) (s1 s2 : st) (k : key) (v : gsval) :
-  egs_wf d = true -> run ops1 (fresh mark d) = Some s1 -> run ops2 s1 = Some s2 ->
+  forallb no_rb ops1 = true -> forallb no_rb ops2 = true -> egs_wf d = true -> run ops1 (fresh mark d) = Some s1 -> run ops2 s1 = Some s2 ->
   lookup k (egs s1) = Some v -> lookup k (egs s2) = Some v.
 Proof. exact (gs_names_stable mark d ops1 ops2 s1 s2 k v). Qed.
 Print Assumptions C16_gs_names_stable.
@@ -92,3 +93,43 @@ Theorem C16_dropped_font_breaks_closure (keep : Z -> bool) (d : sdoc) (n : node)
   closed (finalise_fonts keep d) = false.
 Proof. exact (dropped_font_breaks_closure keep d n h). Qed.
 Print Assumptions C16_dropped_font_breaks_closure.
+
+(* Stream.checkpoint / Stream.rollback (fix of finding F66).  A drawing that starts with push_state and is interrupted
+   anywhere before (or at) the matching pop_state, at a point of a well-bracketed sequence outside text objects, is
+   erased exactly by rollback(checkpoint): the items, the ctm stack and the ExtGState dictionary are what they were at
+   the checkpoint, every cache and _old_font are forgotten (only len(marked) is not restored). *)
+Theorem C16_failed_drawing_is_erased (b : list bk) (s : st) (body : list op) :
+  BInv b s -> in_text b = false -> scope_ok body = true -> egs_wf (egs s) = true ->
+  exists s2, run body s = Some s2 /\
+    (let '(t, c, g) := cp_of s in m_rollback t c g s2) = rolled s (nmark s2).
+Proof. intros H T S W. exact (failed_drawing_is_erased b s body H T S (proj1 (egs_wf_WF (egs s)) W)). Qed.
+Print Assumptions C16_failed_drawing_is_erased.
+
+(* Programs = well-bracketed calls interleaved with any number of failed drawings (SVGImage.draw): same guarantees as
+   C16_balanced_calls_give_balanced_tokens ... *)
+Theorem C16_balanced_with_failed_drawings (mark : bool) (d : egsd) (p : list seg) :
+  egs_wf d = true -> wbp p = true ->
+  exists s', run_prog p (fresh mark d) = Some s' /\
+    nested (rev (toks s')) = true /\ dyck_q (rev (toks s')) = true /\ dyck_text (rev (toks s')) = true /\
+    dyck_mc (rev (toks s')) = true /\ length (ctms s') = 1%nat.
+Proof. exact (balanced_with_failed_drawings mark d p). Qed.
+Print Assumptions C16_balanced_with_failed_drawings.
+
+(* ... as C16_skip_is_sound: what is emitted renders like the un-optimised sequence of the calls that are kept: the
+   failed drawings leave no trace in the rendering *)
+Theorem C16_skip_is_sound_with_failed_drawings (mark : bool) (d : egsd) (p : list seg) (s' : st) :
+  egs_wf d = true -> wbp p = true -> tm_disciplined false (kept p) = true ->
+  run_prog p (fresh mark d) = Some s' ->
+  let X := interp (rev (toks s')) in
+  let Y := interp (rev (ntoks (nrun (kept p) (nfresh mark d)))) in
+  i_err X = false /\ i_err Y = false /\ i_obs X = i_obs Y /\ i_g X = i_g Y /\ i_stack X = i_stack Y /\
+  i_text X = false /\ i_text Y = false.
+Proof. exact (skip_is_sound_with_failed_drawings mark d p s'). Qed.
+Print Assumptions C16_skip_is_sound_with_failed_drawings.
+
+(* ... and as C16_gs_names_defined *)
+Theorem C16_gs_names_defined_with_failed_drawings (mark : bool) (d : egsd) (p : list seg) (s' : st) :
+  egs_wf d = true -> wbp p = true -> run_prog p (fresh mark d) = Some s' ->
+  forall k v, In (Tgs k v) (toks s') -> lookup k (egs s') = Some v.
+Proof. exact (gs_names_defined_with_failed_drawings mark d p s'). Qed.
+Print Assumptions C16_gs_names_defined_with_failed_drawings.
